@@ -58,8 +58,23 @@ ASSUMPTIONS = [
     "model vf/c06_model.py are the meaning of 'conforms' and 'same value'",
     "UDP limit = 65507 payload bytes (IPv4); a single element larger than "
     "that is outside the domain of the clumping clause",
-    "refusing a representable value is allowed by the statement (counted, "
-    "never a violation); an exception from the size predictor is a refusal",
+    "refusing a representable value with a documented, deliberate check is "
+    "allowed by the statement and only counted (empty blob: docstring of "
+    "write_blob; nested bundle earlier than its parent, also among negative "
+    "'immediately' values: docstring of NetAddr.send_bundle); an exception "
+    "escaping the size predictor for a packet the builder accepts is NOT a "
+    "refusal but a finding (C06/size-predictor-raises/*)",
+    "message order on the real UDP loop-back path is not judged (the UDP "
+    "thread schedules one task per message reading the global current time "
+    "thread, so arrival order there is not a function of the datagram); "
+    "order is judged on OscPacket.messages and on _handle_request driven "
+    "from a quiet main thread",
+    "strings are UTF-8 (the statement's domain includes non-ASCII strings; "
+    "OSC 1.0 itself only knows ASCII); addresses must begin with '/' "
+    "(OSC 1.0); 4-tuples are MIDI messages of four bytes (builder docstring)",
+    "SynthDef._do_send is driven with a SynthDef object whose bytes are "
+    "injected and a non-local address: the /d_load fallback (def file "
+    "written to disk) is not exercised",
     "CPython struct module for IEEE float32 rounding",
 ]
 MIN_COUNTERS = {
@@ -196,6 +211,23 @@ def check_packet(cx, i, lst, is_bundle, rng, hostile):
             acc.count(f'refused_undecided/{undecided}')
         else:
             acc.count(f'refused_representable/{_exc_key(e)}')
+            if 'blob-memoryview-of-multibyte-items' in feats and \
+                    type(e).__name__ in ('OscMessageParseError',
+                                         'OscBundleParseError',
+                                         'UnicodeDecodeError'):
+                # the builder's own read-back choked on what it built
+                acc.violation('C06/blob-size-field-counts-items-not-bytes',
+                              {'case': i, 'input': before[:400],
+                               'exception': f'{type(e).__name__}: {e}'[:200]})
+            elif type(e).__name__ in ('OscMessageParseError',
+                                      'OscBundleParseError',
+                                      'UnicodeDecodeError', 'IndexError',
+                                      'AttributeError', 'KeyError'):
+                # not a deliberate refusal: an internal failure
+                acc.violation(
+                    f'C06/build-fails-on-representable-value/{_exc_key(e)}',
+                    {'case': i, 'input': before[:400],
+                     'exception': f'{type(e).__name__}: {e}'[:200]})
         if M.srepr(lst) != before:
             acc.count('input_mutated_by_refused_build')
         return None
@@ -215,9 +247,15 @@ def check_packet(cx, i, lst, is_bundle, rng, hostile):
                        'result': how})
         return None
     # ---- roundtrip ------------------------------------------------------
+    mview = 'blob-memoryview-of-multibyte-items' in feats
     try:
         dec = osc.decode(dgram)
     except osc.OscError as e:
+        if mview:
+            acc.violation('C06/blob-size-field-counts-items-not-bytes',
+                          {'case': i, 'input': before, 'dgram': dgram[:300],
+                           'error': str(e)})
+            return None
         acc.violation(f'C06/nonconformant-{what}/{M._slug(str(e))}',
                       {'case': i, 'input': before, 'dgram': dgram[:300],
                        'error': str(e)})
@@ -231,7 +269,11 @@ def check_packet(cx, i, lst, is_bundle, rng, hostile):
     acc.count('nested_packets_compared', nargs[2])
     for f in feats:
         acc.count(f'feature/{f}')
-    for slug in sorted({M.mechanism(m) for m in mism}):
+    if mism and mview:
+        acc.violation('C06/blob-size-field-counts-items-not-bytes',
+                      {'case': i, 'input': before, 'dgram': dgram[:300]})
+        mism = ['x']
+    for slug in sorted({M.mechanism(m) for m in mism} if not mview else ()):
         acc.violation(f'C06/roundtrip-differs/{slug}',
                       {'case': i, 'input': before, 'dgram': dgram[:300],
                        'decoded': repr(dec)[:600], 'mode': cx.mode})
@@ -262,7 +304,13 @@ def check_packet(cx, i, lst, is_bundle, rng, hostile):
         else:
             pred = cx.addr._calc_msg_dgram_size(lst)
     except Exception as e:
+        # the builder accepted this packet (it is on the wire above): a
+        # predictor that cannot size it makes send_clumped_bundles / sync /
+        # every BundleNetAddr (server.bind) block fail for it
         acc.count(f'size_predictor_raised/{_exc_key(e)}')
+        acc.violation(f'C06/size-predictor-raises/{predictor_failure(e)}',
+                      {'case': i, 'input': before[:600],
+                       'exception': f'{type(e).__name__}: {e}'[:200]})
         pred = None
     if pred is not None:
         acc.count('size_predictions_compared')
@@ -286,7 +334,8 @@ def check_packet(cx, i, lst, is_bundle, rng, hostile):
 
 
 CAUSES = {'blob': 'blob-not-padded',
-          'str': 'str-sized-by-characters-not-utf8-bytes'}
+          'str': 'str-sized-by-characters-not-utf8-bytes',
+          'mview': 'memoryview-sized-by-items-not-bytes'}
 
 
 def predict(cx, lst):
@@ -309,6 +358,20 @@ def active_causes(cx, M, lst, pred):
         if d > 0:
             out[name] = d
     return out
+
+
+def predictor_failure(e):
+    """Mechanism of an exception escaping _calc_*_dgram_size."""
+    name, site = type(e).__name__, _exc_key(e).split('@')[-1]
+    if name == 'IndexError':
+        return 'empty-list-argument'
+    if name == 'TypeError' and 'without a string argument' in str(e):
+        return 'bundle-shaped-completion-message'
+    if name == 'UnicodeEncodeError':
+        return 'non-ascii-address'
+    if name == 'ValueError' and site in ('_calc_bndl_dgram_size', '_clump_bundle'):
+        return 'nested-bundle-time-none'
+    return f'other-{name}-in-{site}'
 
 
 def report_underprediction(cx, i, lst, before, pred, real, where):
@@ -479,7 +542,8 @@ def dispatch_check(cx, dgram, dec, exp):
         if w[0] is None or w[0] == 1:
             if not t0 - 1e-6 <= g[1] <= t1 + 1e-6:
                 return 'immediate-message-time-not-reception-time'
-        elif abs(g[1] - (w[0] - cx.offset) / 2 ** 32) > 2.0 ** -31:
+        elif g[1] != (w[0] - cx.offset) / 2 ** 32:
+            # exact: timetag - offset < 2**53, division by 2**32 is exact
             return 'bundle-time'
     return None
 
@@ -508,12 +572,17 @@ def gen_payload(rng, M, family, size_hint):
             out.append('s' * n)
         elif k < 0.7:
             out.append(rng.randbytes(max(4, n // 4 * 4)))
-        elif k < 0.8:
+        elif k < 0.78:
             out.append(rng.randint(-5, 5))
+        elif k < 0.8:
+            out.append(rng.choice([None, True, False, []]))
         elif k < 0.9:
             out.append(rng.uniform(-1, 1))
-        else:
+        elif k < 0.97:
             out.append(['/done', rng.randint(0, 9), 'x' * (n // 4)])
+        else:       # completion bundle
+            out.append([rng.choice([None, 0.2, 2]),
+                        ['/done', rng.randint(0, 9), 'x' * (n // 4)]])
     return out
 
 
@@ -551,7 +620,7 @@ def gen_elements(rng, M, family, target):
             for _ in range(rng.randint(1, 4)):
                 sub.append(['/e', eid] + gen_payload(rng, M, 'mixed', 6))
                 eid += 1
-            e = [rng.choice([2, 2.5, 3.0])] + sub
+            e = [rng.choice([2, 2.5, 3.0, 3.0, None])] + sub
             size = M.size_of(M.expect_bundle(e, ttf))
         else:
             e = ['/e', eid] + gen_payload(rng, M, fam, hint)
@@ -691,6 +760,40 @@ def send_via(cx, via, latency, elements):
         return True, e
 
 
+def check_plain_paths(cx, i, latency):
+    """send_status_msg() and sync() without elements: one datagram each,
+    holding exactly ['/status'] resp. a bundle with exactly one /sync."""
+    acc, osc = cx.acc, cx.osc
+    del cx.captured[:]
+    try:
+        cx.addr.send_status_msg()
+        d = [osc.decode(r) for r in cx.captured]
+        if len(d) != 1 or not isinstance(d[0], osc.Msg) or \
+                d[0].plain() != ['/status']:
+            acc.violation('C06/status-message-differs',
+                          {'case': i, 'decoded': repr(d)[:300]})
+    except Exception as e:
+        acc.violation(f'C06/status-message-differs/raises-{_exc_key(e)}',
+                      {'case': i})
+    ok, err = run_sync(cx, latency, None)
+    if not ok:
+        return False
+    try:
+        d = [osc.decode(r) for r in cx.captured]
+        good = err is None and len(d) == 1 and isinstance(d[0], osc.Bundle) \
+            and len(d[0].elements) == 1 and d[0].elements[0].addr == '/sync' \
+            and len(d[0].elements[0].args) == 1 \
+            and ((d[0].timetag == 1) == (latency is None or latency < 0))
+    except Exception:
+        good = False
+    if not good:
+        acc.violation('C06/sync/plain-sync-datagram-differs',
+                      {'case': i, 'latency': latency, 'error': repr(err),
+                       'dgrams': [r[:80] for r in cx.captured[:3]]})
+    acc.count('plain_paths_checked')
+    return True
+
+
 def run_clump(spec, acc):
     import copy
     cx = Ctx(spec, acc)
@@ -698,6 +801,10 @@ def run_clump(spec, acc):
     LIM = cx.addr._MAX_UDP_DGRAM_SIZE
     for i in iter_cases(spec):
         rng = case_rng(spec['seed'], 'C06', 'clump', i)
+        if i % 8 == 0 and not check_plain_paths(
+                cx, i, [None, 0, 0.2, -1][i // 8 % 4]):
+            acc.mark_inconclusive(f'plain sync did not finish (case {i})')
+            return
         via = rng.choice(['clumped', 'clumped', 'sync', 'sync', 'sync',
                           'bundlenetaddr'])
         family = rng.choice(['tiny', 'tiny', 'mixed', 'mixed', 'huge', 'under',
@@ -746,11 +853,23 @@ def run_clump(spec, acc):
             ok, err = send_via(cx, op, None if op == 'bundlenetaddr' else latency,
                                elements)
             if not ok:
-                # a stuck routine could still send later: stop this shard
+                # judge what was handed to _send, then stop this shard (a
+                # stuck routine could still send later)
+                check_clump_op(cx, i, op, family, step, ops, elements, original,
+                               exp_elems, list(cx.captured), sync_ids)
                 acc.mark_inconclusive(f'sync routine did not finish (case {i})')
                 return
             if err is not None:
                 acc.count(f'clump_refused/{_exc_key(err)}')
+                if _exc_key(err).split('@')[-1] in (
+                        '_calc_msg_dgram_size', '_calc_bndl_dgram_size',
+                        '_clump_bundle'):
+                    # elements send_bundle accepts, refused because the size
+                    # predictor cannot size them
+                    acc.violation(
+                        f'C06/size-predictor-raises/{predictor_failure(err)}',
+                        {'case': i, 'via': op, 'family': family,
+                         'exception': f'{type(err).__name__}: {err}'[:200]})
                 checked = False
                 break
             dgrams = list(cx.captured)
